@@ -4,6 +4,7 @@ import (
 	"bytes"
 	"embed"
 	"errors"
+	"io/fs"
 	"runtime"
 	"strconv"
 	"strings"
@@ -215,7 +216,7 @@ type sinkItem struct {
 	Tags []string `query:"tags" form:"tags" json:"tags" header:"tags" cookie:"tags"`
 }
 
-const nOps = 16
+const nOps = 18
 
 // in-memory file systems for SendFile: a map type (not comparable with ==) and an embedded one
 var sinkMapFS = fstest.MapFS{
@@ -225,6 +226,33 @@ var sinkMapFS = fstest.MapFS{
 
 //go:embed testdata
 var sinkEmbedFS embed.FS
+
+// file systems that cannot be compared with ==: a func type (two closures from one call site) and
+// a struct that wraps a map; each serves its own content and must do so on every request
+type fsFunc func(name string) (fs.File, error)
+
+func (f fsFunc) Open(name string) (fs.File, error) { return f(name) }
+
+type wrapFS struct{ m fstest.MapFS }
+
+func (w wrapFS) Open(name string) (fs.File, error) { return w.m.Open(name) }
+
+func ownContent(kind string, v int) string {
+	return "content of " + kind + " file system " + itoa(v) + "\n"
+}
+
+func mkFuncFS(v int) fs.FS {
+	m := fstest.MapFS{"own.txt": {Data: []byte(ownContent("func", v))}}
+	return fsFunc(func(name string) (fs.File, error) { return m.Open(name) })
+}
+
+var (
+	sinkFuncFS = [2]fs.FS{mkFuncFS(0), mkFuncFS(1)}
+	sinkWrapFS = [2]fs.FS{
+		wrapFS{fstest.MapFS{"own.txt": {Data: []byte(ownContent("struct", 0))}}},
+		wrapFS{fstest.MapFS{"own.txt": {Data: []byte(ownContent("struct", 1))}}},
+	}
+)
 
 func validRid(s string) bool {
 	if len(s) == 0 || len(s) > 32 {
@@ -451,9 +479,20 @@ func sink(c fiber.Ctx) error {
 		return c.Redirect().Back("/fallback")
 	case 10:
 		return c.Redirect().WithInput().To("/ks")
-	case 12, 13, 14, 15:
+	case 12, 13, 14, 15, 16, 17:
 		var err error
+		want := ""
+		v := 0
+		if rid != "" {
+			v = int(rid[len(rid)-1]) & 1 // pipelined requests alternate between the two file systems
+		}
 		switch op {
+		case 16:
+			err = c.SendFile("own.txt", fiber.SendFile{FS: sinkFuncFS[v], CacheDuration: -1})
+			want = ownContent("func", v)
+		case 17:
+			err = c.SendFile("own.txt", fiber.SendFile{FS: sinkWrapFS[v], CacheDuration: -1})
+			want = ownContent("struct", v)
 		case 12:
 			err = c.SendFile("hello.txt", fiber.SendFile{FS: sinkMapFS, CacheDuration: -1})
 		case 13:
@@ -471,6 +510,9 @@ func sink(c fiber.Ctx) error {
 			c.Set("X-Rid", rid)
 		}
 		c.Set("X-Outcome", o.String())
+		if want != "" && err == nil {
+			c.Set("X-Want-Body", strings.TrimSpace(want))
+		}
 		return err
 	case 11:
 		c.Location("/created/1")
@@ -982,6 +1024,19 @@ func runSurvive(e *ev.Env) {
 		one("sendfile-range-op-"+itoa(op), appOpts{}, get("/ks?rid=sf&op="+itoa(op), "Range: bytes=2-5\r\n"), 0)
 		one("sendfile-head-op-"+itoa(op), appOpts{}, []byte("HEAD /ks?rid=sf&op="+itoa(op)+" HTTP/1.1\r\nHost: x\r\n\r\n"), 0)
 	}
+	for _, op := range []int{16, 17} {
+		op := op
+		e.Corpus("sendfile-own-content-op-"+itoa(op), func(c *ev.Case) {
+			var raw []byte
+			var reqs []*rq
+			for i := 0; i < 4; i++ {
+				rid := "own-" + itoa(i)
+				raw = append(raw, get("/ks?rid="+rid+"&op="+itoa(op))...)
+				reqs = append(reqs, &rq{Rid: rid})
+			}
+			surviveCase(e, c, appOpts{}, reqs, raw, false, nil)
+		})
+	}
 	one("head-body-too-large", appOpts{}, []byte("HEAD /ks HTTP/1.1\r\nHost: x\r\nContent-Length: 99999999\r\n\r\n"), 0)
 	flashReq := func(v []byte) []byte {
 		return append(append([]byte("GET /ks?rid=c5 HTTP/1.1\r\nHost: x\r\nCookie: fiber_flash="), v...), "\r\n\r\n"...)
@@ -1223,6 +1278,10 @@ func surviveCase(e *ev.Env, c *ev.Case, o appOpts, reqs []*rq, raw []byte, mutat
 			// parsed, but with a header line the application never set
 			e.Violation(c, "wellformed|injected-header-line|after:"+after, "response carries the header line "+name+" which the application never set",
 				map[string]any{"config": cfg, "input_hex": hexOf(raw), "input": show(raw), "output": show(out), "header": name})
+		}
+		if want := r.Get("X-Want-Body"); want != "" && r.Status == 200 && r.Get("X-Is-Head") == "" && strings.TrimSpace(string(r.Body)) != want {
+			e.Violation(c, "sendfile|serves-content-of-another-file-system", "SendFile from a file system answered with "+strconv.Quote(string(r.Body))+", that file system holds "+strconv.Quote(want),
+				map[string]any{"config": cfg, "input": show(raw), "output": show(out)})
 		}
 		oc := r.Get("X-Outcome")
 		e.Nontrivial(cfg, itoa(r.Status), oc)
